@@ -743,6 +743,224 @@ example :
     ids (Full.run exViews (hkArm exViews exF 5100).1 [.other exReload]).1.sys.links = [1, 3, 7, 8] := by
   refine ⟨by decide +kernel, by decide +kernel, by decide +kernel⟩
 
+/-- A run of the REAL sender starts with the pre-loop pass (`sync_conn_timeout; handle_housekeeping` once, without
+classifier / controller / stamping loop - `run_sender_with_config`, "Run housekeeping once before entering the main
+event loop"), then the loop events. -/
+def exEvsPre : List FEv := [.other .syncTimeout, .other (.hk 4990)] ++ exEvs
+
+-- non-vacuity (audit 5, A4): a run that starts with the pre-loop pass is well-formed (until audit 5 `FEv.wf` rejected
+-- it), so `C16_arm_bounds_run` covers it; its trace is fresh, and it ends with the links 1, 3, 7, 8
+example : (∀ e ∈ exEvsPre, e.wf = true) ∧ ArmInv (Full.run exViews exF exEvsPre).1 ∧
+    FreshRun exF.sys (trace exViews exF exEvsPre) ∧
+    ids (Full.run exViews exF exEvsPre).1.sys.links = [1, 3, 7, 8] := by
+  have hinv : ArmInv exF := by
+    refine ⟨CtlReach.tick _ _ CtlReach.empty, ?_⟩
+    have : exF.sys.links.map (·.ccTarget) = [1000000, 1000000, 1000000] := by decide +kernel
+    intro l hl
+    have hm : l.ccTarget ∈ exF.sys.links.map (·.ccTarget) := List.mem_map.2 ⟨l, hl, rfl⟩
+    rw [this] at hm
+    simp only [List.mem_cons, List.not_mem_nil, or_false, or_self] at hm
+    exact .inr (by omega)
+  exact ⟨by decide, (C16_arm_bounds_run exViews exF hinv exEvsPre (by decide)).1, by decide +kernel,
+    by decide +kernel⟩
+
+/-! ### Run level: right after a tick every link carries the snapshot of ITS OWN entry (audit 5, A3)
+
+`C16_arm_bounds_run` allows the stamped target 0 for every link at every time, so "the arm stamps 0 on every present
+link" would satisfy it.  `C16_arm_target_is_snapshot` excludes that for ONE arm; this section lifts it to runs: right
+after every tick of every run every link carries the snapshot of the controller entry of its OWN conn id (target
+within bounds, never 0), and between ticks a link whose target is 0 has a conn id DRAWN BY A RELOAD SINCE THE LAST
+TICK (created since; every other link still carries its own snapshot - the controller does not move between ticks). -/
+
+/-- Link `l` carries the snapshot of the entry the controller `c` holds for ITS OWN conn id: target, back-off flag,
+loss latch; the target is within [100 000, 200 000 000], in particular not 0. -/
+def OwnSnap (c : Ctl G) (l : FLink F) : Prop :=
+  ∃ st, c.get l.core.connId = some st ∧ l.ccTarget = st.target ∧
+    l.ccBackingOff = decide (st.state = .backingOff) ∧ l.lossDegraded = st.lossDegraded ∧
+    100000 ≤ l.ccTarget ∧ l.ccTarget ≤ 200000000
+
+theorem OwnSnap_congr (c : Ctl G) (l l' : FLink F) (hid : l'.core.connId = l.core.connId)
+    (hvd : verdictsOf l' = verdictsOf l) (h : OwnSnap c l) : OwnSnap c l' := by
+  obtain ⟨st, h1, h2, h3, h4, h5, h6⟩ := h
+  have e1 : l'.ccTarget = l.ccTarget := congrArg Stamp.ccTarget hvd
+  have e2 : l'.ccBackingOff = l.ccBackingOff := congrArg Stamp.ccBackingOff hvd
+  have e3 : l'.lossDegraded = l.lossDegraded := congrArg Stamp.lossDegraded hvd
+  exact ⟨st, by rw [hid]; exact h1, by rw [e1]; exact h2, by rw [e2]; exact h3, by rw [e3]; exact h4,
+    by rw [e1]; exact h5, by rw [e1]; exact h6⟩
+
+/-- One arm from a reachable controller: every link after it carries its own snapshot. -/
+theorem hkArm_ownSnap (v : Views F G) (hv : Faithful v) (s : Full F G) (hr : CtlReach s.ctl) (now : Nat) :
+    ∀ l' ∈ (hkArm v s now).1.sys.links, OwnSnap (hkArm v s now).1.ctl l' := by
+  intro l' hl'
+  obtain ⟨i, hi⟩ := List.getElem?_of_mem hl'
+  have hget := hkArm_get v s now i
+  rw [hi] at hget
+  cases hl : (afterHk s.sys now).1.links[i]? with
+  | none => rw [hl] at hget; cases hget
+  | some l =>
+    obtain ⟨l'', st, g1, g2, g3, g4, g5, g6⟩ := C16_arm_target_is_snapshot v hv s now i l hl
+    rw [hi] at g1
+    obtain rfl : l' = l'' := Option.some.inj g1
+    have hb := C16.C16_bounds_ctl (tickAll s.ctl (ccConns v (afterHk s.sys now).1.links) now)
+      (CtlReach.tick _ now hr) _ st g3
+    exact ⟨st, by rw [g2]; exact g3, g4, g5, g6, by rw [g4]; exact hb.1, by rw [g4]; exact hb.2.1⟩
+
+/-- The controller stays reachable from `LinkCcController::new()` along every run (ticks are `tick_all` calls, no
+other event touches it). -/
+theorem run_reach (v : Views F G) (s : Full F G) (hr : CtlReach s.ctl) (es : List FEv) :
+    CtlReach (Full.run v s es).1.ctl := by
+  induction es generalizing s with
+  | nil => exact hr
+  | cons e es ih =>
+    cases e with
+    | tick now => exact ih _ (CtlReach.tick _ now hr)
+    | other e => exact ih _ hr
+
+theorem Full_run_append (v : Views F G) (s : Full F G) (a b : List FEv) :
+    (Full.run v s (a ++ b)).1 = (Full.run v (Full.run v s a).1 b).1 := by
+  induction a generalizing s with
+  | nil => rfl
+  | cons e a ih => exact ih _
+
+/-- The conn ids a shell event draws: those of the successful bind attempts of a reload. -/
+def drawnOf : Ev → List Nat
+  | .reload _ _ outs => outs.filterMap id
+  | _ => []
+
+/-- The conn ids drawn by the reloads among a list of events of the whole sender. -/
+def drawnIds (es : List FEv) : List Nat :=
+  es.flatMap fun e => match e with
+    | .other e => drawnOf e
+    | .tick _ => []
+
+theorem getElem?_of_map_eq {α β : Type} (f : α → β) (l1 l2 : List α) (h : l1.map f = l2.map f) (i : Nat) (x : α)
+    (hx : l1[i]? = some x) : ∃ y, l2[i]? = some y ∧ f x = f y := by
+  have h' : (l1.map f)[i]? = (l2.map f)[i]? := by rw [h]
+  rw [List.getElem?_map, List.getElem?_map, hx] at h'
+  cases hy : l2[i]? with
+  | none => rw [hy] at h'; simp at h'
+  | some y => rw [hy] at h'; exact ⟨y, rfl, by simpa using h'⟩
+
+/-- One shell event that is not a bare stamp keeps "own snapshot of `c`, or 0 with a drawn conn id". -/
+theorem other_step_snap (s : Sys F) (c : Ctl G) (D : List Nat) (e : Ev) (hs : isStamp e = false)
+    (h : ∀ l ∈ s.links, OwnSnap c l ∨ (l.ccTarget = 0 ∧ l.core.connId ∈ D)) :
+    ∀ l ∈ (step s e).1.links, OwnSnap c l ∨ (l.ccTarget = 0 ∧ l.core.connId ∈ D ++ drawnOf e) := by
+  intro l' hl'
+  have weaken : ∀ l : FLink F, (OwnSnap c l ∨ (l.ccTarget = 0 ∧ l.core.connId ∈ D)) →
+      OwnSnap c l ∨ (l.ccTarget = 0 ∧ l.core.connId ∈ D ++ drawnOf e) := fun l hl =>
+    hl.imp id fun ⟨a, b⟩ => ⟨a, List.mem_append_left _ b⟩
+  by_cases hr : e.isReload = true
+  · cases e with
+    | reload rnow addrs outs =>
+      rcases (mem_reload_iff s rnow addrs outs l').1 hl' with ⟨hold, -⟩ | ⟨k, a, id', -, hout, rfl⟩
+      · exact weaken _ (h _ hold)
+      · refine .inr ⟨rfl, List.mem_append_right _ ?_⟩
+        exact List.mem_filterMap.2 ⟨some id', List.mem_of_getElem? hout, rfl⟩
+    | _ => cases hr
+  · have hnr : e.isReload = false := by simpa using hr
+    obtain ⟨i, hi⟩ := List.getElem?_of_mem hl'
+    obtain ⟨y1, hy1, e1⟩ := getElem?_of_map_eq _ _ _ (Hk.step_ids s e hnr) i l' hi
+    obtain ⟨y2, hy2, e2⟩ := getElem?_of_map_eq _ _ _ (step_verdicts s e hs hnr) i l' hi
+    obtain rfl : y1 = y2 := Option.some.inj (hy1.symm.trans hy2)
+    rcases h y1 (List.mem_of_getElem? hy1) with ho | ⟨hz, hd⟩
+    · exact .inl (OwnSnap_congr c y1 l' e1 e2 ho)
+    · refine .inr ⟨?_, List.mem_append_left _ (e1 ▸ hd)⟩
+      have : l'.ccTarget = y1.ccTarget := congrArg Stamp.ccTarget e2
+      rw [this]; exact hz
+
+/-- Events other than ticks and bare stamps: the controller stays, and every link carries its own snapshot of it or
+carries 0 and has a conn id drawn by one of the reloads among the events. -/
+theorem others_run_snap (v : Views F G) (s : Full F G) (D : List Nat) (es : List FEv)
+    (hes : ∀ e ∈ es, ∃ e', e = FEv.other e' ∧ isStamp e' = false)
+    (h : ∀ l ∈ s.sys.links, OwnSnap s.ctl l ∨ (l.ccTarget = 0 ∧ l.core.connId ∈ D)) :
+    (Full.run v s es).1.ctl = s.ctl ∧
+    ∀ l ∈ (Full.run v s es).1.sys.links, OwnSnap s.ctl l ∨ (l.ccTarget = 0 ∧ l.core.connId ∈ D ++ drawnIds es) := by
+  induction es generalizing s D with
+  | nil => exact ⟨rfl, fun l hl => (h l hl).imp id fun ⟨a, b⟩ => ⟨a, List.mem_append_left _ b⟩⟩
+  | cons e es ih =>
+    obtain ⟨e', rfl, hs⟩ := hes _ List.mem_cons_self
+    have hstep := other_step_snap s.sys s.ctl D e' hs h
+    have := ih (Full.step v s (.other e')).1 (D ++ drawnOf e')
+      (fun x hx => hes x (List.mem_cons_of_mem _ hx)) hstep
+    refine ⟨this.1, fun l hl => ?_⟩
+    have hd : D ++ drawnIds (FEv.other e' :: es) = D ++ drawnOf e' ++ drawnIds es := by
+      simp [drawnIds, List.flatMap_cons, List.append_assoc]
+    rw [hd]
+    exact this.2 l hl
+
+/-- **Right after every tick of every run every link carries the snapshot of its OWN controller entry; 0 only occurs
+for a link created since the last tick.**  From any state whose controller is reachable from
+`LinkCcController::new()` (start-up: empty), after ANY events `es` and a tick (`s1`): every link's stamped
+`cc_target_bps` / `cc_backing_off` / `loss_degraded` are the snapshot of the entry the controller holds for THAT
+link's conn id, the target within [100 000, 200 000 000] - never 0, never another link's.  After any further events
+`es'` up to the next tick (client / uplink / flush / reload / configuration …, no bare stamp; `s2`): the controller
+is the one of `s1`, and every link still carries its own snapshot OR carries 0 and its conn id was drawn by a reload
+among `es'` (`drawnIds`; with `FreshRun` that id was absent when drawn: a link created since the tick).
+Faithful views; no `Inv` needed. -/
+theorem C16_arm_own_snapshot_run (v : Views F G) (hv : Faithful v) (s : Full F G) (hr : CtlReach s.ctl)
+    (es : List FEv) (now : Nat) (es' : List FEv)
+    (hes' : ∀ e ∈ es', ∃ e', e = FEv.other e' ∧ isStamp e' = false) :
+    (∀ l ∈ (Full.run v s (es ++ [.tick now])).1.sys.links, OwnSnap (Full.run v s (es ++ [.tick now])).1.ctl l) ∧
+    (Full.run v s (es ++ [.tick now] ++ es')).1.ctl = (Full.run v s (es ++ [.tick now])).1.ctl ∧
+    ∀ l ∈ (Full.run v s (es ++ [.tick now] ++ es')).1.sys.links,
+      OwnSnap (Full.run v s (es ++ [.tick now] ++ es')).1.ctl l ∨
+      (l.ccTarget = 0 ∧ l.core.connId ∈ drawnIds es') := by
+  have h1 : ∀ l ∈ (Full.run v s (es ++ [.tick now])).1.sys.links,
+      OwnSnap (Full.run v s (es ++ [.tick now])).1.ctl l := by
+    rw [Full_run_append]
+    exact hkArm_ownSnap v hv _ (run_reach v s hr es) now
+  have h2 := others_run_snap v (Full.run v s (es ++ [.tick now])).1 [] es' hes' fun l hl => .inl (h1 l hl)
+  rw [Full_run_append v s (es ++ [FEv.tick now]) es']
+  refine ⟨h1, h2.1, fun l hl => ?_⟩
+  rw [h2.1]
+  simpa using h2.2 l hl
+
+-- non-vacuity: in the example run the first tick (5100) leaves the three links 1, 2, 3 with the snapshot targets of
+-- their own entries (not 0: the floor 100 000 for the fresh link 3); after the reload the created links 7, 8 carry 0,
+-- and 7, 8 are exactly the ids the reload drew; the retained links keep theirs
+example :
+    (Full.run exViews exF ([.other (.client 5000 exData)] ++ [.tick 5100])).1.sys.links.map
+        (fun l => (l.core.connId, decide (l.ccTarget = 0))) = [(1, false), (2, false), (3, false)] ∧
+    (Full.run exViews exF ([.other (.client 5000 exData)] ++ [.tick 5100] ++ [.other exReload])).1.sys.links.map
+        (fun l => (l.core.connId, decide (l.ccTarget = 0))) = [(1, false), (3, false), (7, true), (8, true)] ∧
+    drawnIds [.other exReload] = [7, 8] ∧
+    (∀ e ∈ [FEv.other exReload], ∃ e', e = FEv.other e' ∧ isStamp e' = false) ∧ CtlReach exF.ctl := by
+  refine ⟨by decide +kernel, by decide +kernel, by decide, ?_, CtlReach.tick _ _ CtlReach.empty⟩
+  intro e he
+  simp only [List.mem_singleton] at he
+  exact ⟨exReload, he, rfl⟩
+
 end c16
+
+/-! ## 4. The filter and the controller between ticks (audit 5, A10) -/
+
+/-- **No event other than a tick touches the weak-link filter or the CC controller** - client / uplink / flush
+traffic, configuration, the pre-loop pass, and in particular RELOADS: the stored rows (streaks, probation,
+`prev_weak`) and controller entries of retained AND of removed conn ids are exactly what the last tick left; rows of
+removed ids are dropped by the NEXT tick only (`nextRows` / `tick_all`'s `retain`).  So the verdicts of a tick depend
+on the events since the previous tick only through the link slice the tick reads.  (`run_other_keeps` cited as a
+theorem.  In the real loop the queued reload runs inside the tick, after the stamping loop and the stats publish;
+`Full` lets it happen anywhere, a superset.) -/
+theorem C17_arm_reload_keeps_filter (v : Views F G) (s : Full F G) (es : List FEv)
+    (h : ∀ e ∈ es, ∃ e', e = FEv.other e') :
+    (Full.run v s es).1.cls = s.cls ∧ (Full.run v s es).1.ctl = s.ctl :=
+  ⟨(run_other_keeps v s es h).2, (run_other_keeps v s es h).1⟩
+
+-- non-vacuity: a client datagram and the reload that REMOVES link 2: the filter still holds the stored row of conn
+-- id 2 (streak 3), the controller its entry, although the link list is now 1, 3, 7, 8
+example :
+    (Full.run exViews exF [.other (.client 5000 exData), .other exReload]).1.cls =
+      [(2, { prevWeak := true, weakStreak := 3 })] ∧
+    ((Full.run exViews exF [.other (.client 5000 exData), .other exReload]).1.ctl.get 2).isSome = true ∧
+    ids (Full.run exViews exF [.other (.client 5000 exData), .other exReload]).1.sys.links = [1, 3, 7, 8] := by
+  have h : ∀ e ∈ [FEv.other (.client 5000 exData), FEv.other exReload], ∃ e', e = FEv.other e' := by
+    intro e he
+    simp only [List.mem_cons, List.not_mem_nil, or_false] at he
+    rcases he with rfl | rfl
+    · exact ⟨_, rfl⟩
+    · exact ⟨_, rfl⟩
+  obtain ⟨h1, h2⟩ := C17_arm_reload_keeps_filter exViews exF _ h
+  refine ⟨h1, ?_, by decide +kernel⟩
+  rw [h2]; decide +kernel
 
 end Srtla.Props.SysArm
